@@ -62,6 +62,15 @@ func (p *evalProcessor) Process(iqr *iqr.IQR) (*iqr.IQR, error) {
 		if err != nil {
 			return nil, fmt.Errorf("evalProcessor.Process: failed to read column %v, err: %v", field, err)
 		}
+		if record == nil {
+			// The column is not known to this IQR (ReadColumn returns no values
+			// for an unknown column when there are no RRCs), e.g. because no
+			// record of this batch has it: the value is missing in every record.
+			record = utils.ResizeSliceWithDefault(record, numRecords, sutils.CValueEnclosure{
+				Dtype: sutils.SS_DT_BACKFILL,
+				CVal:  nil,
+			})
+		}
 		if len(record) != numRecords {
 			return nil, fmt.Errorf("evalProcessor.Process: column %v has %v records, expected: %v", field, len(record), numRecords)
 		}
